@@ -50,6 +50,14 @@ def norm(s):
     return re.sub(r"\d+", "#", str(s))[:90]
 
 
+# messages quote file contents and Python reprs: never let the console encoding turn a report into a crash
+for _stream in (sys.stdout, sys.stderr):
+    try:
+        _stream.reconfigure(errors="backslashreplace")
+    except Exception:
+        pass
+
+
 def nopanic(what, f, *a, **kw):
     """Call f; a Rust panic surfacing as PanicException becomes a violation naming the call site."""
     try:
@@ -181,7 +189,7 @@ def run_property(prop, subs, tier, assumptions):
         except BaseException as e:  # Hypothesis' own errors (flaky, etc.)
             if isinstance(e, (KeyboardInterrupt, SystemExit)):
                 raise
-            v = Violation("harness-error:%s" % type(e).__name__, str(e)[:400])
+            v = Violation("harness-error:%s" % type(e).__name__, (str(e) + " | " + traceback.format_exc(limit=-10).replace("\n", " / "))[:1800])
             failures.append(v.sig)
             report(sub, v, st["last"])
         sys.stderr.write("[%s/%s] cases=%d nontrivial=%d distinct=%d skipped=%s failures=%d (%.1fs)\n" % (
